@@ -168,6 +168,12 @@ def main(argv):
             ctx.violations.append(path)
             lines.append(f"VIOLATION property={prop} replay={path} no-failing-input-found")
     wall = time.time() - t0
+    for f in glob.glob(os.path.join(core.VERIF, "work", "stack_*.txt")):
+        try:
+            if os.path.getsize(f) == 0:
+                os.remove(f)
+        except OSError:
+            pass
     write_evidence(ctx, pr, wall, len(ctx.violations))
     for ln in lines:
         print(ln)
